@@ -19,7 +19,7 @@ import math
 PROP = "C20"
 META = {
  "engine": "P-notation-parser",
- "text": "Coq theorems (Props/C20.v, closed under the global context) about a character-level model of the tokenizer (the regular expression incl. its backtracking and the \\b word boundary, lstrip) and of the depth-counter parser as written: for EVERY nested sequence of unbounded depth and width and every choice of inner whitespace, parse(format(t)) = t with int / negative int / decimal / note-name atoms keeping their kind (C20_roundtrip); for EVERY string, if it is accepted then the flattened result is exactly its token stream, the brackets are balanced and only token characters and whitespace occur (C20_structure, C20_balanced_only); a string is accepted iff it tokenizes completely and its brackets are balanced, so deleting/inserting/swapping a bracket into imbalance and any foreign character give ValueError, never another exception (C20_accept_iff, C20_reject, C20_total); the event-dictionary fallback keeps exactly the rejected strings as constants (C20_fallback); a nested group contributes its c-th element on the c-th cycle of its parent, at every depth (C20_cycle). The model is tied to the repository on every run: random nested sequences (depth 0..5, width 0..6, all atom kinds, 0..3 whitespace characters incl. tabs/newlines/Unicode spaces), a mutation stream (delete/insert/swap brackets, foreign characters, glued tokens, malformed words) and ALL strings up to length 4 over the alphabet {1 - . c # [ ] space} are run through parse_notation, Pattern.pattern, PDict and PSequence(str) and compared inside Coq (vm_compute) with the model; an independent reference parser / token-conservation / cycle oracle judges every implementation result and supplies the failing string.",
+ "text": "Coq theorems (Props/C20.v, closed under the global context) about a character-level model of the tokenizer (the regular expression incl. its backtracking and the \\b word boundary, lstrip) and of the depth-counter parser as written: for EVERY nested sequence of unbounded depth and width and every choice of inner whitespace, parse(format(t)) = t with int / negative int / decimal / note-name atoms keeping their kind (C20_roundtrip); for EVERY string, if it is accepted then the flattened result is exactly its token stream, the brackets are balanced and only token characters and whitespace occur (C20_structure, C20_balanced_only); a string is accepted iff it tokenizes completely and its brackets are balanced, so deleting/inserting/swapping a bracket into imbalance and any foreign character give ValueError, never another exception (C20_accept_iff, C20_reject, C20_total); the event-dictionary fallback keeps exactly the rejected strings as constants (C20_fallback); a nested group contributes its c-th element on the c-th cycle of its parent, at every depth (C20_cycle). The model is tied to the repository on every run: random nested sequences (depth 0..5, width 0..6, all atom kinds, 0..3 whitespace characters incl. tabs/newlines/Unicode spaces), a mutation stream (delete/insert/swap brackets, foreign characters, glued tokens, malformed words) and ALL strings up to length 4 over the alphabet {1 - . c # [ ] space} are run through parse_notation, Pattern.pattern, PDict and PSequence(str) and compared inside Coq (vm_compute) with the model; an independent reference parser / token-conservation / cycle oracle judges every implementation result and supplies the failing string. Second round - the pattern built by the parser used through the whole pattern protocol (Notation/PSeqProto.v: reset = every group at every depth back to position 0, all(m), len, copy, histories over a store of objects): C20_reset_restores, C20_rewind_outputs, C20_all_rewinds, C20_history_rewind (after ANY history of next/reset/all/copy on the parsed object and its copies a reset or all() of any of them followed by nextn returns the outputs of a fresh parse), C20_cycle_after_rewind (one element per cycle of the parent from the start again), C20_copy_independent; 361 scripts per run (depth 0-5; parse_notation / Pattern.pattern / PSequence(str) / PDict / a Timeline rewound by Timeline.reset and Track.reset) are compared with the model operation by operation and judged by a reference interpreter of nested cyclic sequences.",
  "note": "Trusted: Coq kernel + VM; the Python harness; CPython's re/str.lstrip/int()/float() as mirrored by the model (the whitespace set and \\w on ASCII are re-measured from the interpreter on every run and compared with the model's tables; \\w on non-ASCII characters enters the model as data). Modelled, not verified: the float VALUE of a decimal token (the model keeps the text; float() is applied by the harness); number tokens longer than 4300 digits (int() refuses them in CPython 3.12) and PSequence.repeats (sys.maxsize) are outside the model. An empty nested group stops the pattern (observed, compared with the model, not demanded by the property).",
 }
 
@@ -757,6 +757,9 @@ def check(run):
         frontier = [p + a for p in frontier for a in alpha]
         small += frontier
     nv += judge(run, [{"s": s, "stratum": "exhaustive-small", "expect": None} for s in small])
+    # 5. the parsed pattern through the whole pattern protocol: reset / all / len / copy mid-cycle, Timeline.reset / Track.reset
+    import c20_proto
+    nv += c20_proto.check_protocol(run)
     run.cov["exhaustive"] = True
     run.cov["exhaustive_domain"] = "all %d strings of length <= %d over the alphabet %r (complete); the other strata are sampled" % (len(small), L, alpha)
     run.cov["rule"] = ("one case = one input string run through parse_notation, Pattern.pattern, PDict and PSequence(str); distinct by string; "
@@ -767,6 +770,9 @@ def check(run):
 
 def replay(run, doc):
     case = doc.get("case") or {}
+    if case.get("protocol"):
+        import c20_proto
+        return c20_proto.replay_case(run, case)
     if "codes" not in case:
         print("replay: no concrete string in this replay file; re-running the whole check")
         if run.build():
